@@ -630,6 +630,7 @@ def selftest(n: int = 500, seed: int = 0, coq_dir: str | None = None, chunk: int
     rng = random.Random(seed)
     cases, skipped, kinds = [], 0, {}
     string_stats = {"agree": 0, "differ": 0, "differ_examples": []}
+    star_differs = []
     i = 0
     while len(cases) < n:
         ast = gen_expr(rng)
@@ -641,7 +642,8 @@ def selftest(n: int = 500, seed: int = 0, coq_dir: str | None = None, chunk: int
             continue
         # both shapes of the optional "*" token must give the same answer
         r2 = python_result(ast, not star)
-        assert r2 == r, (ast, r, r2)
+        if r2 != r:
+            star_differs.append((ast_to_string(ast), r, r2))
         key = "ok" if r[0] == "ok" else r[1]
         kinds[key] = kinds.get(key, 0) + 1
         # informational: the real parser on a concrete string of the tree (the string may parse to a
@@ -671,7 +673,8 @@ def selftest(n: int = 500, seed: int = 0, coq_dir: str | None = None, chunk: int
         strict += s_
         loose += l_
     res = {"n": len(cases), "skipped_signed_zero": skipped, "kinds": kinds, "mismatch_strict": sorted(strict),
-           "mismatch_loose": sorted(loose), "coq_failures": failures, "string_cross_check": string_stats}
+           "mismatch_loose": sorted(loose), "coq_failures": failures, "string_cross_check": string_stats,
+           "star_differs": star_differs}
     if verbose:
         print("mismatching indices (strict):", res["mismatch_strict"])
         print("mismatching indices (by value):", res["mismatch_loose"])
